@@ -7,6 +7,8 @@ func init() {
 	vxRegister("H05aQ2", H05aQ2)
 	vxRegister("H05aT", H05aT)
 	vxRegister("H05b", H05b)
+	vxRegister("H05pad", H05pad)
+	vxRegister("H05date", H05date)
 }
 
 func H05aQ2() { h05a(2) }
@@ -73,6 +75,47 @@ func h05a(n int) {
 		tag, y, lines = "dash", vxReplace(x, p, ins), true
 	}
 	vxSameDoc(tag, vxTokenizeBytes(x), vxTokenizeBytes(y), lines)
+	vxCover("end")
+}
+
+// H05pad: indentation that moves the content across the read-buffer boundary (1012..1024 leading
+// blanks) changes nothing - x = symbolic bytes followed by enough text to fill the buffer.
+func H05pad() {
+	x := vxBytes(2)
+	vxNoHyphenLineEnd(x)
+	tail := " tail of the line\nzz\n"
+	pad := 1012 + vxChoice(13)
+	body := append(append([]byte{}, x...), tail...)
+	padded := make([]byte, 0, pad+len(body))
+	for i := 0; i < pad; i++ {
+		padded = append(padded, ' ')
+	}
+	padded = append(padded, body...)
+	vxSameDoc("indent-across-buffer", vxTokenizeBytes(body), vxTokenizeBytes(padded), true)
+	vxCover("end")
+}
+
+// H05date: a date-only line keeps being recognised as ignorable text when its hyphens are typographic.
+func H05date() {
+	d := []string{"2006-01-27", "2006-Jan-27", "1999-12-31"}[vxChoice(3)]
+	dash := vxDashes[vxChoice(len(vxDashes))]
+	which := vxChoice(3) // first, second or both hyphens
+	y := ""
+	n := 0
+	for i := 0; i < len(d); i++ {
+		if d[i] == '-' {
+			if which == 2 || which == n {
+				y += dash
+			} else {
+				y += "-"
+			}
+			n++
+		} else {
+			y += string(d[i])
+		}
+	}
+	pre, post := "alpha beta\n", "\ngamma delta\n"
+	vxSameDoc("date-line", vxTokenizeBytes([]byte(pre+d+post)), vxTokenizeBytes([]byte(pre+y+post)), true)
 	vxCover("end")
 }
 
